@@ -126,6 +126,25 @@ func c04Check(w *core.W, m *model.Msg, kind string) {
 	if len(packC) > len(packU) {
 		w.Violation("C04/compressed-longer", fmt.Sprintf("compressed %d > uncompressed %d", len(packC), len(packU)), wit)
 	}
+	// PackBuffer into a caller's buffer of any size between "too small" and the uncompressed length (a
+	// caller that sized it with Len()): the same octets, never "buffer too small"
+	for _, sz := range []int{0, len(packC) - 1, len(packC), len(packC) + 1, (len(packC) + len(packU)) / 2, len(packU) - 1, len(packU), len(packU) + 1} {
+		if sz < 0 || len(packC) == len(packU) && sz > 0 {
+			continue
+		}
+		bb, _ := buildMsgAny(m)
+		bb.Compress = true
+		var pb []byte
+		var pe error
+		if w.Guard("Msg.PackBuffer(compress)", wit, func() { pb, pe = bb.PackBuffer(make([]byte, sz)) }) {
+			return
+		}
+		w.Count("packbuffer_sizes", 1)
+		if pe != nil || !bytes.Equal(pb, packC) {
+			w.Violation("C04/packbuffer-differs-from-pack/"+kind, fmt.Sprintf("PackBuffer with a %d-octet buffer (compressed %d, uncompressed %d octets): err=%v, %s", sz, len(packC), len(packU), pe, diffWin(pb, packC)), wit)
+			break
+		}
+	}
 	exp, ptrs, derr := model.Decompress(packC)
 	if derr != nil {
 		w.Violation("C04/invalid-compressed-message/"+kind, fmt.Sprintf("the strict model decoder rejects the compressed form: %v", derr), wit)
@@ -261,6 +280,48 @@ func c04SpecialUse(w *core.W, j int) {
 	}
 }
 
+// c04Dense: tens of records of the compressible types under one long zone name - almost every name octet
+// of the message is replaced by a pointer (the compressed form is a twentieth of the uncompressed one)
+func c04Dense(w *core.W, j int) {
+	g := model.NewGen(w.Rng(j))
+	g.NoHuge = true
+	g.Plain = j%2 == 0
+	zone := g.NameOfWireLen(100 + g.R.IntN(150))
+	m := &model.Msg{ID: uint16(j), Bits: 0x8400, Q: []model.Question{{Name: zone.Clone(), Type: 2, Class: 1}}}
+	host := func() model.Name {
+		if g.R.IntN(4) == 0 || zone.WireLen() > 250 {
+			return zone.Clone()
+		}
+		return append(model.Name{[]byte{byte('a' + g.R.IntN(26))}}, zone...)
+	}
+	n := 20 + g.R.IntN(120)
+	for i := 0; i < n; i++ {
+		t := []uint16{2, 5, 12, 15, 2, 2}[g.R.IntN(6)]
+		l := model.Layouts[t]
+		var vals []any
+		if t == 15 {
+			vals = []any{uint64(g.R.IntN(100)), host()}
+		} else {
+			vals = []any{host()}
+		}
+		r := &model.Rec{Owner: host(), Type: t, Class: 1, TTL: 300, L: l, Vals: vals}
+		switch g.R.IntN(3) {
+		case 0:
+			m.An = append(m.An, r)
+		case 1:
+			m.Ns = append(m.Ns, r)
+		default:
+			m.Ar = append(m.Ar, r)
+		}
+	}
+	if len(m.Wire()) > 65000 {
+		return
+	}
+	w.Count("dense_messages", 1)
+	w.Max("uncompressed_over_compressed", float64(len(m.Wire()))/float64(len(m.WireCompressed(true))+1))
+	c04Check(w, m, "dense")
+}
+
 // c04Large: messages of 300..3000 records that cross offset 16384.
 func c04Large(w *core.W, j int) {
 	g := model.NewGen(w.Rng(j))
@@ -289,6 +350,7 @@ func init() {
 		section{"small", tiered(3000, 60000), c04Small},
 		section{"large", tiered(60, 1500), c04Large},
 		section{"special-use-names", tiered(600, 12000), c04SpecialUse},
+		section{"dense", tiered(120, 3000), c04Dense},
 		concurrentSection("C04"),
 	)
 	core.Register(&core.Monitor{
